@@ -82,6 +82,10 @@ def apply_env(scenario):
         # the time zone of the simulated machine (POSIX TZ string: no zone database needed)
         os.environ['TZ'] = env['tz']
         time.tzset()
+    if env and env.get('warn'):
+        # the process turns DeprecationWarning into an error (python -W error::DeprecationWarning, pytest filterwarnings = error)
+        import warnings
+        warnings.filterwarnings('error', category=DeprecationWarning)
     if env and env.get('log') == 'DEBUG':
         root = logging.getLogger()
         for h in list(root.handlers):
@@ -121,6 +125,8 @@ def gen_env(seed):
         env['tz'] = TIME_ZONES[z]
     if seeds.derive(seed, 'env-opt') % 16 == 0:
         env['optimize'] = 1          # python -O: assert statements are not executed
+    if seeds.derive(seed, 'env-warn') % 16 == 0:
+        env['warn'] = 'error::DeprecationWarning'
     return env
 
 
@@ -297,6 +303,7 @@ def _run_chunk(args):
         res['env_log'] = scenario.get('env', {}).get('log', 'off')
         res['env_tz'] = scenario.get('env', {}).get('tz', '')
         res['env_opt'] = scenario.get('env', {}).get('optimize', 0)
+        res['env_warn'] = 1 if scenario.get('env', {}).get('warn') else 0
         res['wall'] = time.perf_counter() - t0
         out.append(res)
     return out
@@ -502,6 +509,8 @@ def main(check, argv=None):
             tz_runs[r['env_tz']] = tz_runs.get(r['env_tz'], 0) + 1
         if r.get('env_opt'):
             tz_runs['__opt__'] = tz_runs.get('__opt__', 0) + 1
+        if r.get('env_warn'):
+            tz_runs['__warn__'] = tz_runs.get('__warn__', 0) + 1
         _merge(probes, r['probes'])
         _merge(ops, r['ops'])
         _merge(faults, r['faults'])
@@ -617,8 +626,9 @@ def main(check, argv=None):
                 'faulted_runs': faulted_runs,
                 'harness_errors': n_harness,
                 'runs_with_debug_logging_enabled': n_debug,
-                'runs_per_simulated_time_zone': dict(sorted((k, v) for k, v in tz_runs.items() if k != '__opt__')),
+                'runs_per_simulated_time_zone': dict(sorted((k, v) for k, v in tz_runs.items() if not k.startswith('__'))),
                 'runs_with_assertions_stripped_python_O': tz_runs.get('__opt__', 0),
+                'runs_with_DeprecationWarning_as_error': tz_runs.get('__warn__', 0),
                 'known_findings_seen': sorted(known_seen),
                 'real_components': check.REAL,
                 'stub_components': check.STUB,
